@@ -514,6 +514,11 @@ func (x *Exec) goEq(t types.Type, a, c *smt.Term) *smt.Term {
 		if u.Info()&types.IsFloat != 0 {
 			return x.fCmp("==", a, c)
 		}
+		// bit patterns of two floats are equal iff the floats are structurally
+		// equal (the bit functions are injective: they have an inverse)
+		if (a.Op == "f64bits" || a.Op == "f32bits") && a.Op == c.Op && len(a.Args) == 1 && len(c.Args) == 1 {
+			return x.b.Eq(a.Args[0], c.Args[0])
+		}
 		return x.b.Eq(a, c)
 	case *types.Struct:
 		si := x.so.StructInfo(t)
